@@ -1,4 +1,5 @@
 // Plan generators for the L3 (whole daemon) families.
+#include <cstring>
 #include <stdio.h>
 #include <string.h>
 
@@ -45,8 +46,11 @@ static std::string cutsFor(Rng& r, size_t len) {
 
 static void addCmd(plan::Plan* p, Rng& r, int client, const std::string& text, const std::string& extra, bool allowPipe = true) {
   char buf[200];
-  snprintf(buf, sizeof(buf), " gap=%d think=%d pipe=%d crlf=%d", static_cast<int>(r.below(3000)), static_cast<int>(r.below(20)), 0 /* ebusd's client protocol is strictly request/response: no pipelining */, r.chance(0.3) ? 1 : 0);
-  std::string cuts = cutsFor(r, text.size() + 1);
+  bool crlf = r.chance(0.3);
+  snprintf(buf, sizeof(buf), " gap=%d think=%d pipe=%d crlf=%d", static_cast<int>(r.below(3000)), static_cast<int>(r.below(20)), 0 /* ebusd's client protocol is strictly request/response: no pipelining */, crlf ? 1 : 0);
+  // segment boundaries anywhere in the line including its end (between CR and LF)
+  std::string cuts = cutsFor(r, text.size() + (crlf ? 2 : 1));
+  if (crlf && r.chance(0.25)) cuts = std::to_string(text.size() + 1);   // exactly between CR and LF
   p->add("cmd client=" + std::to_string(client) + " text=" + hx(text) + (cuts.empty() ? "" : " cuts=" + cuts) + buf + (extra.empty() ? "" : " " + extra));
 }
 
@@ -94,7 +98,13 @@ struct Probe { std::string cmd, expect; };
 static Probe randomProbe(Rng& r) {
   Probe pr;
   char buf[128];
-  int k = static_cast<int>(r.below(8));
+  int k = static_cast<int>(r.below(12));
+  // fractional types go through strtod: values with an exact binary and a short decimal representation
+  if (k == 8) { int raw = static_cast<int>(r.below(4000)) - 2000; snprintf(buf, sizeof(buf), "encode D2C %.4f", raw / 16.0); pr.cmd = buf; snprintf(buf, sizeof(buf), "%02x%02x", raw & 0xff, (raw >> 8) & 0xff); pr.expect = buf; return pr; }
+  if (k == 9) { int raw = static_cast<int>(r.below(200)); snprintf(buf, sizeof(buf), "encode D1C %.1f", raw / 2.0); pr.cmd = buf; snprintf(buf, sizeof(buf), "%02x", raw); pr.expect = buf; return pr; }
+  if (k == 10) { int q = static_cast<int>(r.below(4000)) - 2000; float f = static_cast<float>(q) / 4.0f; uint32_t u; memcpy(&u, &f, 4); snprintf(buf, sizeof(buf), "encode EXP %.2f", static_cast<double>(f)); pr.cmd = buf;
+                 snprintf(buf, sizeof(buf), "%02x%02x%02x%02x", u & 0xff, (u >> 8) & 0xff, (u >> 16) & 0xff, u >> 24); pr.expect = buf; return pr; }
+  if (k == 11) { int raw = static_cast<int>(r.below(60000)) - 30000; snprintf(buf, sizeof(buf), "encode D2B %.8f", raw / 256.0); pr.cmd = buf; snprintf(buf, sizeof(buf), "%02x%02x", raw & 0xff, (raw >> 8) & 0xff); pr.expect = buf; return pr; }
   if (k == 0) { int v = static_cast<int>(r.below(255)); snprintf(buf, sizeof(buf), "encode UCH %d", v); pr.cmd = buf; snprintf(buf, sizeof(buf), "%02x", v); pr.expect = buf; }
   else if (k == 1) { int v = static_cast<int>(r.below(65535)); snprintf(buf, sizeof(buf), "encode UIN %d", v); pr.cmd = buf; snprintf(buf, sizeof(buf), "%02x%02x", v & 0xff, v >> 8); pr.expect = buf; }
   else if (k == 2) { int v = static_cast<int>(r.below(255)) - 127; snprintf(buf, sizeof(buf), "encode SCH %d", v); pr.cmd = buf; snprintf(buf, sizeof(buf), "%02x", v & 0xff); pr.expect = buf; }
@@ -128,15 +138,26 @@ static plan::Plan genC12(uint64_t seed, const std::string& tier) {
   for (int cl = 0; cl < nclients; cl++) {
     p.add("client id=" + std::to_string(cl) + " at=" + std::to_string(50 + r.below(100)));
     for (int k = 0; k < n; k++) {
-      if (r.chance(0.2)) {
+      if (r.chance(0.3)) {
         // decoding two fields together equals decoding each alone (no formatting state leaks between fields)
         struct T { const char* def; int len; };
         static const T types[] = {{"D2C", 2}, {"D2B", 2}, {"D1C", 1}, {"EXP", 4}, {"FLT", 2}, {"UCH", 1}, {"SCH", 1}, {"UIN", 2}, {"SIN", 2}, {"ULG", 4}, {"BCD", 1},
                                   {"HEX:2", 2}, {"STR:3", 3}, {"BTI", 3}, {"HTI", 3}, {"BDA", 4}, {"UCH,10", 1}, {"UIN,-10", 2}, {"SLG,1000", 4}, {"EXR", 4}, {"D1B", 1}, {"UCH,0=off;1=on", 1}};
-        const T& a = types[r.below(22)];
+        const T& a = r.chance(0.4) ? types[11] : types[r.below(22)];   // HEX first: it leaves the stream in hex mode
         const T& b = types[r.below(22)];
         auto bytes = [&r](int n, bool printable) { std::string h; char bb[4]; for (int i = 0; i < n; i++) { int v = printable ? 0x41 + static_cast<int>(r.below(26)) : static_cast<int>(r.below(256)); if (!printable && r.chance(0.1)) v = 0; snprintf(bb, sizeof(bb), "%02x", v); h += bb; } return h; };
+        // valid time and date encodings most of the time (random bytes rarely are), with two digit values
+        auto special = [&r](const std::string& def, std::string* h) {
+          char bb[16];
+          auto bcd = [](int v) { return (v / 10) * 16 + v % 10; };
+          int hh = 10 + static_cast<int>(r.below(14)), mi = 10 + static_cast<int>(r.below(50)), ss = 10 + static_cast<int>(r.below(50));
+          if (def == "BTI") { snprintf(bb, sizeof(bb), "%02x%02x%02x", bcd(ss), bcd(mi), bcd(hh)); *h = bb; return true; }
+          if (def == "HTI") { snprintf(bb, sizeof(bb), "%02x%02x%02x", hh, mi, ss); *h = bb; return true; }
+          if (def == "BDA") { snprintf(bb, sizeof(bb), "%02x%02x%02x%02x", bcd(10 + static_cast<int>(r.below(18))), bcd(10 + static_cast<int>(r.below(3))), static_cast<int>(r.below(7)), bcd(10 + static_cast<int>(r.below(80)))); *h = bb; return true; }
+          return false;
+        };
         std::string ha = bytes(a.len, std::string(a.def).compare(0, 3, "STR") == 0), hb = bytes(b.len, std::string(b.def).compare(0, 3, "STR") == 0);
+        if (r.chance(0.8)) { special(a.def, &ha); special(b.def, &hb); }
         std::string g = std::to_string(cl * 1000 + k);
         auto def4 = [](const std::string& d) { return d.find(',') == std::string::npos ? d + ",,," : d + ",,"; };
         addCmd(&p, r, cl, std::string("decode ") + a.def + " " + ha, "tag=compose part=a group=" + g);
@@ -247,6 +268,31 @@ static plan::Plan genC12o(uint64_t seed, const std::string& tier) {
     p.add("bus script idle=" + std::to_string(r.below(2)) + " note=update steps=" + simbus::stepsToText(st));
   }
   p.add("client id=0 at=1500");
+  // number types restricted by a range column are derived once per process and cached: same base type, divisor, maximum
+  // and step with different minima, in a seeded order, in a second file with its own column header
+  if (r.chance(0.6)) {
+    p.add("csvzhdr l=" + hx("type,circuit,name,comment,qq,zz,pbsb,id,*name,part,type,divisor/values,range,unit,comment"));
+    static const int minima[] = {2, 5, 10, 15, 20};
+    int mx = 30 + static_cast<int>(r.below(50));
+    int nr2 = 2 + static_cast<int>(r.below(2));
+    std::vector<int> mins;
+    while (static_cast<int>(mins.size()) < nr2) { int mn = minima[r.below(5)]; if (std::find(mins.begin(), mins.end(), mn) == mins.end()) mins.push_back(mn); }
+    uint8_t sb3 = static_cast<uint8_t>(0x30 + r.below(8));
+    const char* base = r.chance(0.5) ? "UCH" : "UIN";
+    for (size_t k = 0; k < mins.size(); k++) {
+      snprintf(buf, sizeof(buf), "w,cir,rg%zu,,,08,b5%02x,0d7%zu,v,m,%s,,%d-%d,,", k, sb3, k, base, mins[k], mx);
+      p.add("csvz l=" + hx(buf));
+      snprintf(buf, sizeof(buf), "slave zz=0x08 pb=0xb5 sb=0x%02x id=0d7%zu len=0", sb3, k);
+      p.add(buf);
+    }
+    for (size_t k = 0; k < mins.size(); k++) {
+      for (int q = 0; q < 3; q++) {
+        int v = q == 0 ? mins[k] - 1 : q == 1 ? mins[k] : minima[r.below(5)] + static_cast<int>(r.below(3));
+        bool ok = v >= mins[k] && v <= mx;
+        addCmd(&p, r, 0, "write -c cir rg" + std::to_string(k) + " " + std::to_string(v), std::string("tag=probe cls=load-order-dependent-result sig=range-derived-type expect=") + hx(ok ? "done" : "ERR: argument value out of valid range"));
+      }
+    }
+  }
   for (auto& d : defs) {
     if (d.expect.empty()) continue;
     addCmd(&p, r, 0, "read -c " + d.circuit + " " + d.name, std::string(d.circuit == "bc" ? "tag=probe cls=load-order-dependent-result sig=passive-broadcast" : "tag=probe prop=C09 cls=telegram-not-identified sig=passive-update") + " expect=" + hx(d.expect));
@@ -358,7 +404,7 @@ static void emitMsg(plan::Plan* p, const MsgDef& m) {
       Bytes full = m.id;
       full.insert(full.end(), m.chainIds[i].begin(), m.chainIds[i].end());
       // the first part of some chains always answers with the same bytes
-      p->add(std::string("slave ") + buf + " id=" + ref::hex(full) + " len=" + std::to_string(m.chainLens[i]) + " gen=" + (i == 0 && (m.id[1] & 1) ? "fixedascii" : "ascii"));
+      p->add(std::string("slave ") + buf + " id=" + ref::hex(full) + " len=" + std::to_string(m.chainLens[i]) + " gen=" + (i == 0 && (m.id.back() & 1) ? "fixedascii" : "ascii"));
     }
   }
 }
@@ -500,6 +546,132 @@ static plan::Plan genC09(uint64_t seed, const std::string& tier) {
   return p;
 }
 
+// ---- c09w: a chained write message (the shape of the repo's own test definition: last part takes the rest) ----
+static plan::Plan genC09w(uint64_t seed, const std::string& tier) {
+  (void)tier;
+  Rng r(seed);
+  plan::Plan p;
+  addCommonCfg(&p, r, seed, "c09w", false);
+  p.add("cfg minms=400 maxms=60000");
+  int l0 = 2 + static_cast<int>(r.below(6)), l1 = 1 + static_cast<int>(r.below(4)), rest = 1 + static_cast<int>(r.below(5));
+  int d = l0 + l1 + rest;
+  uint8_t sb = static_cast<uint8_t>(0x09 + r.below(3));
+  Bytes id = {0x0e, static_cast<uint8_t>(0x40 + r.below(16))};
+  char buf[300];
+  snprintf(buf, sizeof(buf), "w,cir,wc,,,08,b5%02x,%s01:%d;%s02:%d;%s03,f0,m,STR:%d", sb, ref::hex(id).c_str(), l0, ref::hex(id).c_str(), l1, ref::hex(id).c_str(), d);
+  p.add("csv l=" + hx(buf));
+  snprintf(buf, sizeof(buf), "msg name=wc circuit=cir level=- dir=w zz=0x08 pb=0xb5 sb=0x%02x id=%s fields=STR:%d chain=01:%d,02:%d,03:%d poll=0", sb, ref::hex(id).c_str(), d, l0, l1, rest);
+  p.add(buf);
+  for (int k = 1; k <= 3; k++) { snprintf(buf, sizeof(buf), "slave zz=0x08 pb=0xb5 sb=0x%02x id=%s%02x len=0", sb, ref::hex(id).c_str(), k); p.add(buf); }
+  std::vector<MsgDef> defs = randomDefs(r, 2, {}, false, false);
+  for (auto& m : defs) emitMsg(&p, m);
+  p.add("client id=0 at=" + std::to_string(300 + r.below(300)));
+  int n = 1 + static_cast<int>(r.below(3));
+  for (int k = 0; k < n; k++) {
+    std::string v, enc;
+    char hb[4];
+    for (int i = 0; i < d; i++) { char ch = static_cast<char>('A' + r.below(26)); v += ch; snprintf(hb, sizeof(hb), "%02x", ch); enc += hb; }
+    addCmd(&p, r, 0, "write -c cir wc " + v, "tag=writechain msg=wc enc=" + enc);
+  }
+  for (int i = 0; i < 12; i++) p.add("react ack1=A resp1=G");
+  return p;
+}
+
+// ---- c09s: a chain of 4..5 parts read in a slow round (the main loop is stalled between the parts) ----
+static plan::Plan genC09s(uint64_t seed, const std::string& tier) {
+  (void)tier;
+  Rng r(seed);
+  plan::Plan p;
+  addCommonCfg(&p, r, seed, "c09s", false);
+  p.add("cfg minms=400 maxms=240000 maxsteps=8000000");
+  MsgDef m;
+  m.circuit = "cir"; m.name = "slow"; m.zz = 0x08; m.sb = static_cast<uint8_t>(0x09 + r.below(3));
+  m.id = r.chance(0.5) ? Bytes{static_cast<uint8_t>(0x20 + r.below(16))} : Bytes{0x0d, static_cast<uint8_t>(0x50 + r.below(16))};
+  int parts = 4 + static_cast<int>(r.below(2));
+  int total = 0;
+  for (int k = 0; k < parts; k++) { m.chainIds.push_back(Bytes{static_cast<uint8_t>(k + 1)}); int len = 2 + static_cast<int>(r.below(3)); m.chainLens.push_back(len); total += len; }
+  int remain = total;
+  while (remain > 0) { if (remain >= 8) { m.fields.push_back(7); remain -= 8; } else if (remain >= 4) { m.fields.push_back(5); remain -= 4; } else { m.fields.push_back(6); remain -= 1; } }
+  emitMsg(&p, m);
+  p.add("client id=0 at=400");
+  addCmd(&p, r, 0, "read -f -c cir slow", "tag=read msg=slow force=1");
+  // the second round: every part is started in a short window between two long stalls of the main loop thread, so that
+  // the whole round takes longer than 15 s times (2 + ID prefix bytes) but stays inside 15 s per part
+  int stallMs = 50000 / (parts - 1) + 500 + static_cast<int>(r.below(1500));
+  if (stallMs > 14500) stallMs = 14500;
+  int64_t t = 2500;
+  for (int k = 0; k < parts + 1; k++) {
+    char buf[120];
+    snprintf(buf, sizeof(buf), "fault stall at=%lld thread=mainloop ms=%d", static_cast<long long>(t), stallMs);
+    p.add(buf);
+    t += stallMs + 60 + static_cast<int>(r.below(60));
+  }
+  p.add("cmd client=0 text=" + hx("read -f -c cir slow") + " gap=100 think=2300 pipe=0 crlf=0 tag=read msg=slow force=1");
+  addCmd(&p, r, 0, "read -c cir slow", "tag=read msg=slow force=0");
+  for (int i = 0; i < 30; i++) p.add("react ack1=A resp1=G");
+  return p;
+}
+
+// ---- c09f: reads with a master side parameter and selection of one field by name and index (names occur twice) ----
+static plan::Plan genC09f(uint64_t seed, const std::string& tier) {
+  (void)tier;
+  Rng r(seed);
+  plan::Plan p;
+  addCommonCfg(&p, r, seed, "c09f", false);
+  p.add("cfg minms=400 maxms=60000");
+  int nm = static_cast<int>(r.below(3));        // 0..2 master side fields
+  int ns = 2 + static_cast<int>(r.below(3));    // 2..4 slave side fields
+  uint8_t sb = static_cast<uint8_t>(0x09 + r.below(3));
+  Bytes id = {0x0d, static_cast<uint8_t>(0x60 + r.below(16))};
+  static const char* names[] = {"v", "v", "t", "v", "t"};
+  std::string csv = "r,cir,mf,,,08,b5";
+  char buf[300];
+  snprintf(buf, sizeof(buf), "%02x,%s", sb, ref::hex(id).c_str());
+  csv += buf;
+  std::vector<std::string> mnames;
+  for (int i = 0; i < nm; i++) { mnames.push_back(r.chance(0.5) ? "idx" : names[r.below(5)]); csv += "," + mnames.back() + ",m,UCH,,,"; }
+  std::string refFields, layout;
+  std::vector<std::string> snames;
+  for (int i = 0; i < ns; i++) {
+    bool wide = r.chance(0.3);
+    std::string nme = names[r.below(5)];
+    snames.push_back(nme);
+    csv += "," + nme + ",s," + (wide ? "UIN" : "UCH") + ",,,";
+    refFields += std::string(i ? "," : "") + (wide ? "UIN:2" : "UCH:1");
+    layout += std::string(i ? "," : "") + (wide ? "n2" : "n1");
+  }
+  p.add("csv l=" + hx(csv));
+  int slen = 0;
+  for (auto& t : snames) (void)t;
+  { size_t q = 0; while (q < layout.size()) { slen += layout[q + 1] - '0'; q += 3; } }
+  snprintf(buf, sizeof(buf), "msg name=mf circuit=cir level=- dir=r zz=0x08 pb=0xb5 sb=0x%02x id=%s fields=%s poll=0 mlen=%d", sb, ref::hex(id).c_str(), refFields.c_str(), nm);
+  p.add(buf);
+  snprintf(buf, sizeof(buf), "slave zz=0x08 pb=0xb5 sb=0x%02x id=%s len=%d layout=%s", sb, ref::hex(id).c_str(), slen, layout.c_str());
+  p.add(buf);
+  p.add("client id=0 at=" + std::to_string(300 + r.below(300)));
+  int n = 3 + static_cast<int>(r.below(6));
+  for (int k = 0; k < n; k++) {
+    std::string in;
+    for (int i = 0; i < nm; i++) in += std::string(i ? ";" : "") + std::to_string(1 + r.below(200));
+    std::string cmd = std::string("read -f ") + (nm ? "-i " + in + " " : "") + "-c cir mf";
+    int sel = static_cast<int>(r.below(static_cast<uint32_t>(ns)));
+    if (r.chance(0.8)) {
+      // FIELD.N : N counts the fields of that name
+      int nth = 0;   // master side fields of that name count as well
+      for (auto& mn : mnames) if (mn == snames[static_cast<size_t>(sel)]) nth++;
+      for (int i = 0; i < sel; i++) if (snames[static_cast<size_t>(i)] == snames[static_cast<size_t>(sel)]) nth++;
+      bool only = nth == 0;
+      for (int i = 0; i < ns; i++) if (i != sel && snames[static_cast<size_t>(i)] == snames[static_cast<size_t>(sel)]) only = false;
+      cmd += " " + snames[static_cast<size_t>(sel)] + (only && r.chance(0.5) ? "" : "." + std::to_string(nth));
+      addCmd(&p, r, 0, cmd, "tag=read msg=mf force=1 field=" + std::to_string(sel));
+    } else {
+      addCmd(&p, r, 0, cmd, "tag=read msg=mf force=1");
+    }
+  }
+  for (int i = 0; i < 12; i++) p.add("react ack1=A resp1=G");
+  return p;
+}
+
 // ---- c16: access levels over interleaved sessions ----
 static plan::Plan genC16(uint64_t seed, const std::string& tier) {
   Rng r(seed);
@@ -540,6 +712,22 @@ static plan::Plan genC16(uint64_t seed, const std::string& tier) {
     else { std::string line = "*,"; for (auto& l : d) line += "," + l; p.add("acl l=" + hx(line)); }
   }
   p.add("user name=* secret=- levels=" + (deflv.empty() ? "-" : deflv));
+  // the MQTT data sink filters with the levels of the ACL user "mqtt", otherwise with the default levels
+  if (r.chance(0.3)) {
+    addArg(&p, "--mqttport=1883");
+    addArg(&p, "--mqtttopic=ebusd/%circuit/%name");
+    p.add("mqttsink on=1");
+    p.add("cfg minms=14000");
+    if (r.chance(0.6)) {
+      std::vector<std::string> d;
+      int k = static_cast<int>(r.below(3));
+      for (int q = 0; q < k; q++) { std::string l = r.chance(0.1) ? "*" : std::string(pool[r.below(10)]); if (std::find(d.begin(), d.end(), l) == d.end()) d.push_back(l); }
+      std::string line = "mqtt,", lv;
+      for (auto& l : d) { line += "," + l; lv += (lv.empty() ? "" : ";") + l; }
+      p.add("acl l=" + hx(line));
+      p.add("user name=mqtt secret=- levels=" + (lv.empty() ? "-" : lv));
+    }
+  }
   std::vector<MsgDef> defs = randomDefs(r, 3 + static_cast<int>(r.below(5)), levels, false, false);
   for (auto& m : defs) emitMsg(&p, m);
   int nclients = 2 + static_cast<int>(r.below(4));
@@ -622,18 +810,17 @@ static plan::Plan genC18m(uint64_t seed, const std::string& tier) {
   Rng r(seed);
   plan::Plan p;
   addCommonCfg(&p, r, seed, "c18m", false);
-  static const char* leads[] = {"ebusd/", "e/b/", "", "x_"};
-  static const char* seps[] = {"/", "/x/", "-", "/s/"};
-  static const char* trails[] = {"", "/state", "/s/t", "-val", ".t"};
+  static const char* leads[] = {"ebusd/", "e/b/", "", "x_", "eBUS/", "Home/Heating/"};
+  static const char* seps[] = {"/", "/x/", "-", "/s/", "/Val/"};
+  static const char* trails[] = {"", "/state", "/s/t", "-val", ".t", "/State"};
   // a template with %name, optionally %circuit and %field, in a seeded order
   std::vector<std::string> fields = {"%name"};
   if (r.chance(0.8)) fields.push_back("%circuit");
   if (r.chance(0.5)) fields.push_back("%field");
   for (size_t i = fields.size(); i > 1; i--) std::swap(fields[i - 1], fields[r.below(static_cast<uint32_t>(i))]);
-  std::string tmpl = leads[r.below(4)];
-  if (tmpl.empty() && fields[0] == "%field" && false) tmpl = "e/";
-  for (size_t i = 0; i < fields.size(); i++) { if (i) tmpl += seps[r.below(4)]; tmpl += fields[i]; }
-  tmpl += trails[r.below(5)];
+  std::string tmpl = leads[r.below(6)];
+  for (size_t i = 0; i < fields.size(); i++) { if (i) tmpl += seps[r.below(5)]; tmpl += fields[i]; }
+  tmpl += trails[r.below(6)];
   addArg(&p, "--mqttport=1883");
   // without %circuit ebusd appends "/%circuit" unless the option ends with '#'
   addArg(&p, "--mqtttopic=" + tmpl + (tmpl.find("%circuit") == std::string::npos ? "#" : ""));
@@ -695,6 +882,14 @@ static std::string hostileDef(Rng& r, const std::vector<MsgDef>& defs, bool cond
                                 "[", "[]", "[]r", "[c9]r", "[c1", "[c1]]", "[[c1]]", "[c1][", "r;w", "[c1]r;[c2]w", "!include", "!load"};
   static const char* tails[] = {",,,08,b509,0d%02x,,,UCH", ",,,08,b509,0d%02x,v,s,UIN,10,,", ",,,fe,b516,%02x,,,HEX:*", ",,,08,b509,0d%02x,a,,UCH,,,,b,,STR:*", ",,,08,b509,0d%02x01:4;0d%02x02:3,,,STR:7",
                                 ",,,08;15,b509,0d%02x,,,D2C", ",,,,,,", ",,,08,b509,0d%02x,,,UCH,0=off;1=on", ",,,08,b5,0d%02x,,,UCH", ",,,zz,b509,0d%02x,,,UCH", ",,,08,b509,0d%02x,,,BI0:9", ",,31,08,b509,0d%02x,,m,ULG"};
+  if (r.chance(0.15)) {
+    // several destinations in one line, the first of them colliding with a loaded definition (same ZZ, PBSB, ID)
+    const MsgDef& m = defs[r.below(static_cast<uint32_t>(defs.size()))];
+    char b2[160];
+    snprintf(b2, sizeof(b2), "%s,%s,n%u,,,%02x;%02x%s,%02x%02x,%s,,,UCH", m.write ? "w" : "r", r.chance(0.5) ? m.circuit.c_str() : "x", r.below(3), m.zz, m.zz == 0x08 ? 0x15 : 0x08,
+             r.chance(0.3) ? ";52" : "", m.pb, m.sb, ref::hex(m.id).c_str());
+    return b2;
+  }
   std::string type = types[r.below(32)];
   std::string circuit, name;
   if (r.chance(0.6)) { const MsgDef& m = defs[r.below(static_cast<uint32_t>(defs.size()))]; circuit = m.circuit; name = m.name; if (r.chance(0.5) && type.back() != 'w') type = type == "w" ? "w" : type; }
@@ -809,6 +1004,9 @@ struct Reg {
     hz::registerFamily(hz::Family{"c18m", "l3", genC18m, "MQTT topics built from a seeded template for (circuit, name, field) arriving with /get /set /list"});
     hz::registerFamily(hz::Family{"c18h", "l3", genC18h, "HTTP request URIs: percent decoding exactly once, html root confinement"});
     hz::registerFamily(hz::Family{"c09", "l3", genC09, "client reads/writes through main loop, bus handler and bus incl. chained messages, polls, retries"});
+    hz::registerFamily(hz::Family{"c09w", "l3", genC09w, "chained write message: parts with the defined lengths, last part takes the rest"});
+    hz::registerFamily(hz::Family{"c09s", "l3", genC09s, "chained read in a slow round: main loop stalled between the parts"});
+    hz::registerFamily(hz::Family{"c09f", "l3", genC09f, "reads with master side parameters and selection of one field by name and index"});
     hz::registerFamily(hz::Family{"c16", "l3", genC16, "access levels: interleaved TCP/HTTP sessions, ACL with overlapping level names"});
     hz::registerFamily(hz::Family{"c20", "l3", genC20, "garbage on TCP, HTTP and bus, then valid probes"});
   }
